@@ -1,11 +1,11 @@
 package rules
 
 import (
-	"os"
 	"fmt"
 	"go/constant"
 	"go/types"
 	"math/big"
+	"os"
 	"strings"
 
 	"gmcheck/core"
@@ -221,6 +221,7 @@ func init() {
 			obs = append(obs, c.Panics(c.Verif, roots, in, in)...)
 			obs = append(obs, c.TagDispatch("nbt", "nbt/dynbt")...)
 			obs = append(obs, c.ListProgress()...)
+			obs = append(obs, c.SignCheckBeforeSuccess(in)...)
 			obs = append(obs, c.rootObs("R-TLG", "nbt.(*Decoder).Decode", "nbt/dynbt.(*Value).UnmarshalNBT", "nbt.(*StringifiedMessage).UnmarshalNBT", "nbt.(*RawMessage).UnmarshalNBT")...)
 			return obs
 		},
@@ -232,6 +233,7 @@ func init() {
 			obs := c.TLGObs(yes, armed, false)
 			obs = append(obs, c.Panics(c.Verif, c.DecoderRoots(), yes, armed)...)
 			obs = append(obs, c.FuncFieldCalls(yes, armed)...)
+			obs = append(obs, c.StringIndexGuards(armed)...)
 			obs = append(obs, c.GuardedCalls("level.NewBitStorage", 2, c.NetworkRoots(), yes, armed)...)
 			obs = append(obs, c.rootObs("R-TLG", "net/packet.(*Packet).UnPack", "net/packet.(*String).ReadFrom", "net/packet.(*ByteArray).ReadFrom", "net/packet.(*BitSet).ReadFrom",
 				"net/packet.(Ary).ReadFrom", "level.(*BitStorage).ReadFrom", "level.(*PaletteContainer).ReadFrom", "level.(*Chunk).ReadFrom", "registry.(*Registry).ReadFrom", "registry.(*Registry).ReadTagsFrom")...)
@@ -246,6 +248,7 @@ func init() {
 			obs = append(obs, c.frameMaxObs()...)
 			obs = append(obs, c.Pools("net/packet")...)
 			obs = append(obs, c.ThresholdPlumbing()...)
+			obs = append(obs, c.UnpackAssigns()...)
 			obs = append(obs, c.ErrFlow(in, in)...)
 			obs = append(obs, filterObs(c.NoReadAhead(), func(o core.Ob) bool { return strings.Contains(o.Key, "packet") || o.Key == "scope" })...)
 			obs = append(obs, c.rootObs("R-TLG", "net/packet.(*Packet).UnPack", "net/packet.(*Packet).Pack")...)
